@@ -49,6 +49,16 @@ Frame ==
 \* a second update right after an update is the identity
 UpdateIdempotent ==
   \A mo \in MUpdate(st) : \A mo2 \in MUpdate(mo.st) : mo2.st.w1 = mo.st.w1 /\ mo2.st.w2 = mo.st.w2
+\* weight bounding (C16 + C10 at network level): whatever was learned, every application of the updaters leaves the
+\* weights inside the box, and inside the box the hook changes nothing
+InBox(w, J, I) == \A j \in J : \A i \in I : w[j][i] >= 0 /\ w[j][i] <= WBoxMax * S
+BoxInv ==
+  Clamp = "box" =>
+    \A o \in {[a |-> "update"], [a |-> "tupdate"]} : \A mo \in MApply(st, o) :
+       /\ InBox(mo.st.w1, I1, I0) /\ InBox(mo.st.w2, I2, I1)
+       /\ \A j \in I1 : \A i \in I0 :
+            LET raw == st.w1[j][i] + st.p1[j][i] - st.q1[j][i]
+            IN (raw >= 0 /\ raw <= WBoxMax * S) => mo.st.w1[j][i] = raw
 \* parts are non-negative (C09 at network level)
 NonNegative == \A j \in I1 : \A i \in I0 : st.p1[j][i] >= 0 /\ st.q1[j][i] >= 0
 \* layer 2 is driven by THIS step's layer-1 spikes: with all-zero layer-2 weights it never spikes, and a layer-1 spike
